@@ -148,7 +148,7 @@ def validate_traces(ctx, tr, V):
     from hiten.algorithms.dynamics import rtbp
     from hiten.system.base import System
     from hiten.system.body import Body
-    n = 400 if ctx.thorough() else 120
+    n = 3000 if ctx.thorough() else 120
     worst = 0.0
     for k in range(n):
         mu = rand_mu(ctx.rng) if k % 3 else [0.0121505856, 3.0034e-6, 0.5][k % 9 // 3]
@@ -257,7 +257,7 @@ def numerics(ctx):
     """Failing-input search on the real code (also run when all proofs hold, as supporting evidence)."""
     from hiten.algorithms.common import energy as en
     from hiten.algorithms.dynamics import rtbp
-    n = 600 if ctx.thorough() else 150
+    n = 4000 if ctx.thorough() else 150
     for k in range(n):
         mu = rand_mu(ctx.rng)
         planar = (k % 4 == 0)
